@@ -109,6 +109,13 @@ Proof. vm_compute. split; reflexivity. Qed.
    stages are goroutines and channels in demux.go), the Y-poll pacing of Write, and time-outs:
    exercised by the harness against a scripted TNC. *)
 
+(* The model's header (hdr in Agwpe.v) hard-codes where each field lies; the layout of the Go
+   struct is regenerated from source on every run (offset and size of every named field as
+   encoding/binary lays them out) and must be the one the model assumes. *)
+Example C13_header_layout :
+  map snd agw_header_layout = [(0, 1); (4, 1); (6, 1); (8, 10); (18, 10); (28, 4)] /\ agw_header_layout_size = 36.
+Proof. split; reflexivity. Qed.
+
 (* Non-vacuity: a data frame on port 2 between two stations is well formed, accepted by the
    connection's filter, survives a split inside its header, and is read back through 2-byte buffers. *)
 Example C13_witness :
